@@ -192,5 +192,5 @@ REG.contract('Task.do_work',
     ensures=dw_ensures, step=dw_step,
     modifies=['heap:Task.task_status', 'heap:Task.ast', 'heap:Task.aft', 'heap:Task.duration', 'heap:Task.delay_flag',
               'heap:Task.delay_offset'],
-    props=['C06', 'C03', 'C15', 'C01', 'C02', 'C04'],
+    props=['C06', 'C03', 'C15', 'C01', 'C02', 'C04', 'C09'],
     note="predecessor_allocations=None is modelled as the empty list (only its truthiness and iteration are used)")
